@@ -95,6 +95,11 @@ type Sim struct {
 
 	Invariant func() // checked after every step
 
+	// BusyMaxQ (>0) caps the time quantum (index into the ladder) that may be
+	// chosen while tasks are runnable, so that scheduler-induced starvation adds
+	// only little simulated delay (engines with latency oracles set it).
+	BusyMaxQ int
+
 	progress *atomic.Int64
 
 	seqMode bool
@@ -639,6 +644,9 @@ func (s *Sim) StepOnce(allowTime bool, maxQ int) bool {
 	// time passes
 	if maxQ <= 0 || maxQ > len(ladder) {
 		maxQ = len(ladder)
+	}
+	if s.BusyMaxQ > 0 && nT > 0 && maxQ > s.BusyMaxQ {
+		maxQ = s.BusyMaxQ
 	}
 	q := ladder[s.T.Choose(maxQ)]
 	s.logStep('z', "", q.String())
